@@ -188,6 +188,16 @@ theorem tmpstore_load_refines (ops : List TmpBytes.Op) (hok : ∀ op ∈ ops, Op
     load (TmpBytes.run ops).t oid = specLoad (TmpBytes.run ops).m oid :=
   Proofs.TmpBytes.load_of_rel (Proofs.TmpBytes.inv_run ops hok).rel oid
 
+/-- in particular `load` never fails on a store the class built itself: neither "Bad temporary storage" nor a
+    short read, after any history of stores, savepoints and rollbacks -/
+theorem tmpstore_load_never_fails (ops : List TmpBytes.Op) (hok : ∀ op ∈ ops, OpOk op) (oid : Bytes) :
+    load (TmpBytes.run ops).t oid ≠ .bad ∧ load (TmpBytes.run ops).t oid ≠ .short := by
+  rw [tmpstore_load_refines ops hok oid]
+  unfold specLoad
+  cases alookup (TmpBytes.run ops).m oid with
+  | none => simp
+  | some v => obtain ⟨d, sr⟩ := v; simp
+
 /-- a rollback — `reset` with nothing but the position and the index copy the savepoint kept — gives
     back, byte for byte, the store (file, position, index) of the moment of the savepoint, and with it
     the abstract map of that moment; whatever was stored, saved and rolled back in between -/
